@@ -15,6 +15,12 @@ CONSTANTS
   MaxDev = 2
   MaxOps = 5
   StaleClaim = TRUE
+  Flds = {"none"}
+  Sks = {"no"}
+  Ups = {FALSE}
+  RegMeta = 0
+  ClaimKinds = {"claim"}
+  Bug = "none"
   EmitMod = 1
 CONSTRAINT Bound
 VIEW View
